@@ -296,6 +296,35 @@ def run(tier, seed):
                         ck.violation("C19:optflag:%s" % " ".join(av), "%s expected %s under %s" % (f.name, want, av), dict(kind="optflag", argv=av, flag=f.name, want=want))
     ck.add(states=n, traces_validated_against_impl=n, evaluations=n)
 
+    # (f) histories: the configuration a command line resolves to does not depend on the command line loaded before it
+    def oname(o):
+        return "--" + o.name.lower().replace("_", "-")
+    alt_val = lambda o: ("dot" if isinstance(o.default, str) else str(o.default + 60))
+    A = [[FILE], ["-O3", FILE], ["-O0", FILE]] + [[oname(o), alt_val(o), FILE] for o in N.ProgramOption] + [["--flag", "%s=%s" % (o.name.lower().replace("_", "-"), alt_val(o)), FILE] for o in N.ProgramOption]
+    A += [["-f" + fname(f), FILE] for f in PF if not f.default] + [["-fno-" + fname(f), FILE] for f in PF if f.default]
+    A += [["--dump", d.name.lower().replace("_", "-"), "--dump-prefix", "zz", "--dry-run", FILE] for d in list(N.DebugDumpable)[:2]] + [["-O4", FILE], ["-fnosuch", FILE], ["-o", "outname", FILE]]
+    B = [[FILE], ["-O2", FILE], ["-fyield-support", FILE], ["--collapsed-range-length", "2", FILE], ["-O3", "-fno-hook-global", "-fhook-per-state", "other.nmfu"]]
+    nh = 0
+    for b in B:
+        resolve([FILE])
+        want = resolve(b)
+        given = {b[i][2:].upper().replace("-", "_"): b[i + 1] for i in range(len(b) - 1) if b[i].startswith("--")}
+        if want[0] == "ok":
+            for nm_o, val in want[4]:
+                exp = given.get(nm_o, N.ProgramOption[nm_o].default)
+                if str(val) != str(exp):
+                    ck.violation("C19:history:option:%s" % " ".join(b), "%s: option %s is %r, expected %r" % (b, nm_o, val, exp), dict(kind="history", first=[FILE], argv=b))
+        for a in A:
+            resolve(a)
+            got = resolve(b)
+            nh += 1
+            ck.note(("history", got[0]))
+            if got != want:
+                diff = [x for x in zip(got, want) if x[0] != x[1]][:1]
+                ck.violation("C19:history:%s" % " ".join(a), "loading %s first changes what %s resolves to: %s" % (a, b, diff), dict(kind="history", first=a, argv=b))
+    ck.add(states=nh, traces_validated_against_impl=nh, evaluations=nh)
+    ck.extra["history_pairs"] = nh
+
     nm_ = 0
     for argv, why in malformed_menu():
         res = resolve(argv)
@@ -397,6 +426,13 @@ def replay(path):
         probs = check_config(level, explicit, r)
         print(argv, "->", describe(canon(r)), probs)
         bad = bool(probs)
+    elif k == "history":
+        resolve([FILE])
+        want = resolve(d["argv"])
+        resolve(d["first"])
+        got = resolve(d["argv"])
+        print("alone:", want[:2], want[4:], "\nafter", d["first"], ":", got[:2], got[4:])
+        bad = got != want
     elif k == "optflag":
         r = resolve(d["argv"])
         bad = r[0] != "ok" or (PF[d["flag"]] in r[1]) != d["want"]
